@@ -610,18 +610,7 @@ def run(ctx):
     oracle_single_lexemes(ctx, trunc, "truncated")
 
     # --- O4 bytes input ---------------------------------------------------------------------
-    for t in corpus_texts + EDGE + trunc:
-        try:
-            b = t.encode("utf8")
-        except UnicodeEncodeError:
-            ctx.stat("bytes:not-encodable")
-            continue
-        ctx.count()
-        rs, rb = real_lex(t), real_lex(b)
-        if rs != rb:
-            t2 = shrink(t, lambda x: real_lex(x) != real_lex(x.encode("utf8")))
-            ctx.fail("bytes-differs:%s" % classes(t2), "UTF-8 bytes input lexes differently from the str",
-                     {"part": PART, "kind": "bytes", "text": cps(t2)})
+    oracle_bytes(ctx, corpus_texts + EDGE + trunc)
 
     # --- O3 + correspondence: token sequences under random ignored runs ------------------------
     n_seq = ctx.n(250, 2500)
@@ -663,6 +652,12 @@ def run(ctx):
         if ctx.out_of_time():
             break
     ctx.sample({"tokens": [t[1] for t in rendered[0][0]][:6], "rendered": rendered[0][1][:80]})
+    bytes_texts = [a for _, a, _ in rendered]
+    for t in ['"\xe9"', '"\xe9" ', '"\xe9"\n', '#\xe9', '#\xe9\n', '#\xe9\n ', '{a} #\u2028\U0001F600', '{a(b:"\U0001F600")}  ,,\n', '"""\xe9"""\t',
+              '\ufeff{a}', '{a}\ufeff', '"\u0663" # \u0663 \n\n', '{ a # \xe9\n }\n\n\n']:
+        bytes_texts.append(t)
+    oracle_bytes(ctx, bytes_texts)
+    newline_error_stream(ctx, rng, [a for _, a, _ in rendered[: ctx.n(80, 600)]])
 
     # single lexemes from the generators (O2)
     lexs = []
@@ -706,6 +701,10 @@ def run(ctx):
         if body and ctx.time_left() > 10 and (len(body) < 10000 or ctx.tier == "thorough"):
             check_texts(ctx, [body], "fixture")
 
+    # --- END TO END on text through the Lean lexer AND parser ------------------------------------
+    if ctx.time_left() > 10:
+        parse_text_stream(ctx, rng)
+
     # --- index_to_loc / highlight_location: totality for 0 <= position <= len, IndexError beyond ------------
     check_locations(ctx, rng)
 
@@ -724,6 +723,188 @@ def run(ctx):
         oracle_single_lexemes(ctx, chunk, "exhaustive")
         done += len(chunk)
     ctx.extra["exhaustive_strings"] = done
+
+
+FLAG0 = {"no_location": False, "allow_type_system": False, "experimental_fragment_variables": False}
+
+
+def parse_text_cases(ctx, cases, stream):
+    """END TO END on TEXT: Lean lexAll -> Lean parser (driver op "parse_text") vs the real parse / parse_value / parse_type,
+    on the str and on its UTF-8 bytes. cases: (text, entry, flags, expect) with expect True = derived from the grammar."""
+    from corr import C01_parse as PP
+    reqs = [dict(op="parse_text", entry=e, text=cps(t), **PP.flags_json(fl)) for t, e, fl, _ in cases]
+    ans = ctx.driver.ask(reqs) if (ctx.model_ok and cases) else [None] * len(cases)
+    for (t, e, fl, expect), a in zip(cases, ans):
+        ctx.count()
+        real = PP.real_parse(t, e, fl)
+        kind = real[0]
+        ctx.stat("parse_text:%s:%s:%s" % (stream, e, kind.split(":")[0]))
+        det = {"part": PART, "kind": "parse_text", "text": cps(t), "entry": e, "flags": fl}
+        if kind.startswith("internal:"):
+            t2 = shrink(t, lambda x: PP.real_parse(x, e, fl)[0] == kind, budget=150)
+            ctx.fail("%s:parse_text:%s" % (kind, classes(t2)), "parsing a text raises %s instead of GraphQLSyntaxError" % kind.split(":")[1],
+                     dict(det, text=cps(t2)))
+            continue
+        want = PP.canon(real[1].to_dict()) if kind == "ok" else None
+        if kind == "ok" and len(t) > 3:
+            ctx.nontrivial(("pt", e, PP.fl_key(fl), t))
+        # bytes input: same outcome, same tree
+        try:
+            b = t.encode("utf8")
+        except UnicodeEncodeError:
+            b = None
+        if b is not None:
+            rb = PP.real_parse(b, e, fl)
+            same = rb[0] == kind and (kind != "ok" or PP.canon(rb[1].to_dict()) == want)
+            if not same:
+                def bad(x):
+                    r1, r2 = PP.real_parse(x, e, fl), PP.real_parse(x.encode("utf8"), e, fl)
+                    return r1[0] != r2[0] or (r1[0] == "ok" and r1[1].to_dict() != r2[1].to_dict())
+                t2 = shrink(t, bad, budget=150)
+                r2 = PP.real_parse(t2.encode("utf8"), e, fl)
+                ctx.fail("bytes-parse-differs:%s:%s" % (r2[0], classes(t2)), "parsing the UTF-8 bytes differs from parsing the str",
+                         dict(det, text=cps(t2), bytes_outcome=r2[0]))
+        if kind == "syntax":
+            pos = real[1]
+            if not (isinstance(pos, int) and 0 <= pos <= len(t)) and not ESC_AT_EOF.search(t):
+                ctx.fail("position-out-of-range:parse_text:other", "syntax error position outside the text", dict(det, position=pos))
+            if expect:
+                ctx.fail("derivation-rejected-text:%s:%s" % (e, PP.fl_key(fl)), "a text derived from the grammar is rejected", det)
+        if a is None:
+            continue
+        m_ok = "ok" in a
+        if m_ok != (kind == "ok"):
+            def differs(x):
+                rr = PP.real_parse(x, e, fl)
+                if rr[0].startswith("internal"):
+                    return False
+                mm = ctx.driver.ask([dict(op="parse_text", entry=e, text=cps(x), **PP.flags_json(fl))])[0]
+                return ("ok" in mm) != (rr[0] == "ok")
+            _reported["pt"] = _reported.get("pt", 0) + 1
+            t2 = shrink(t, differs, budget=80) if _reported["pt"] <= 4 else t
+            ctx.fail("corr:parse_text:accept-mismatch:impl-%s:%s:%s" % ("accepts" if kind == "ok" else "rejects", e, classes(t2, 24)),
+                     "real parser and Lean lexer+parser disagree on accepting a text",
+                     dict(det, text=cps(t2), model=str(a)[:300]), kind="correspondence")
+            # failing-input search: the lexical oracles on the shrunk text and its tokens
+            oracle_single_lexemes(ctx, [t2], "shrunk-disagreement")
+            rl = real_lex(t2)
+            for tok in (rl[1] if rl[0] == "ok" else []):
+                oracle_single_lexemes(ctx, [t2[tok[1]:tok[2]]], "shrunk-disagreement")
+        elif m_ok and a["ok"] != want:
+            ctx.fail("corr:parse_text:ast-differs:%s:%s" % (e, PP.first_diff(want, a["ok"])),
+                     "AST of Lean lexer+parser and Node.to_dict() differ", dict(det, model=str(a["ok"])[:400]), kind="correspondence")
+        elif (not m_ok) and not (a["err"].get("str_ok") and a["err"].get("dict") is not None):
+            ctx.fail("corr:parse_text:model-render", "model rendering of the error position fails", dict(det, model=a), kind="correspondence")
+
+
+def parse_text_stream(ctx, rng):
+    from corr import C01_parse as PP
+    cases = []
+    for c in PP.derivation_cases(ctx, ctx.n(120, 1200)):
+        cases.append((c.text, c.entry, c.flags, c.expect))
+        # the same derivation under MY ignored runs (comments, BOM, commas, CR/CRLF, non-ASCII comment bodies)
+        toks = [(cl, lx, None) for cl, lx in c.toks]
+        cases.append((render(rng, toks), c.entry, c.flags, c.expect))
+        if rng.random() < 0.5:
+            m = mutate(rng, c.text)
+            cases.append((m, c.entry, c.flags, None))
+        if rng.random() < 0.3 and c.text:
+            cases.append((c.text[: rng.randrange(len(c.text))], c.entry, c.flags, None))
+    hand = ['{a}', '{ a(b: "\xe9") }  ', '# \xe9\n{a}\n', '{a} # \U0001F600', '\ufeff{ a }\ufeff', 'query Q($v: Int = 1e05) { a(b: $v) }',
+            '{ a(b: "\\u00e9\\n") }', '{ a(b: """\n  x\n   \n    y\n""") }', '{ a(b: \u0663) }', '{ a\u0663 }', '{ a(b: "\\u0663\u0662\u0661\u0660") }',
+            '{a}\r\n{b}\r\n?', '{\r\n a\r\n', '[1, 2.5e3, "x", $v, {k: E}]', '[[Int!]]!', 'type A { a: Int } # c', '"d" type A { a: Int }', '{ a(b: "\\']
+    for t in hand:
+        for fl in PP.FLAG_COMBOS:
+            for e in ("document", "value", "type"):
+                cases.append((t, e, fl, None))
+    for name, body in fixtures():
+        if body and len(body) < 8000:
+            for fl in PP.FLAG_COMBOS:
+                cases.append((body, "document", fl, None))
+                cases.append((body.replace("\n", "\r\n"), "document", fl, None))
+    for i in range(0, len(cases), 500):
+        if ctx.time_left() < 6:
+            ctx.notes.append("parse_text stream cut short at %d of %d" % (i, len(cases)))
+            break
+        parse_text_cases(ctx, cases[i:i + 500], "text")
+    ctx.extra["parse_text_cases"] = len(cases)
+
+
+def oracle_bytes(ctx, texts):
+    """O4: UTF-8 bytes input lexes exactly like the str (positions are code-point offsets)."""
+    for t in texts:
+        try:
+            b = t.encode("utf8")
+        except UnicodeEncodeError:
+            ctx.stat("bytes:not-encodable")
+            continue
+        ctx.count()
+        ctx.stat("bytes:%s" % ("multibyte" if len(b) != len(t) else "ascii"))
+        rs, rb = real_lex(t), real_lex(b)
+        if rs != rb:
+            _reported["bytes"] = _reported.get("bytes", 0) + 1
+            if _reported["bytes"] > 4:
+                ctx.stat("bytes-differs-not-shrunk")
+                continue
+            t2 = shrink(t, lambda x: real_lex(x) != real_lex(x.encode("utf8")))
+            rb2 = real_lex(t2.encode("utf8"))
+            ctx.fail("bytes-differs:%s:%s" % (rb2[1] if rb2[0] == "internal" else rb2[0], classes(t2)),
+                     "UTF-8 bytes input lexes differently from the str",
+                     {"part": PART, "kind": "bytes", "text": cps(t2), "bytes_result": repr(rb2)[:200]})
+
+
+def real_parse_contract(text, entry="document"):
+    """the error contract through the PARSER entry points: ('ok',) | ('syntax', pos, problem) | ('internal', Class)"""
+    from py_gql.lang import parser as P
+    from py_gql.exc import GraphQLSyntaxError
+    fn = {"document": P.parse, "value": P.parse_value, "type": P.parse_type}[entry]
+    try:
+        fn(text, allow_type_system=True)
+        return ("ok",)
+    except GraphQLSyntaxError as e:
+        problem = None
+        for what, f in (("str", lambda: str(e)), ("highlighted", lambda: e.highlighted), ("to_dict", lambda: e.to_dict())):
+            try:
+                f()
+            except Exception as x:  # noqa
+                problem = "%s:%s" % (what, type(x).__name__)
+                break
+        return ("syntax", e.position, problem)
+    except RecursionError:
+        return ("internal", "RecursionError")
+    except Exception as x:  # noqa
+        return ("internal", type(x).__name__)
+
+
+def newline_error_stream(ctx, rng, texts):
+    """documents under each newline convention (LF, CR, CRLF) with a lexical or syntactic error near the END, rendered
+    through str() / .highlighted / .to_dict() — from the lexer and from parse()."""
+    tails = ["?", "\"", "\"\\", "\x00", "1a", "..", "}", "{", "\"\\u12", "'", "\"\"\"x", "@", "$"]
+    cases = []
+    for t in texts + ["{\n  a\n  b\n}\n", "type A {\n  a: Int\n}\n\n", "{ a }\n# c\n"]:
+        base = t.replace("\r\n", "\n").replace("\r", "\n")
+        for nl in ("\n", "\r", "\r\n"):
+            doc = base.replace("\n", nl)
+            cases.append(doc + rng.choice(tails))
+            cases.append(doc + nl + nl + rng.choice(tails) + rng.choice(["", nl, " "]))
+    reals = check_texts(ctx, cases, "newline-errors")
+    for t in cases:
+        ctx.count()
+        r = real_parse_contract(t)
+        ctx.stat("newline-errors:parse:%s" % r[0])
+        if r[0] == "internal":
+            t2 = shrink(t, lambda x: real_parse_contract(x) == r)
+            ctx.fail("internal:%s:parse:%s" % (r[1], classes(t2)), "parse() raises %s instead of GraphQLSyntaxError" % r[1],
+                     {"part": PART, "kind": "parse_contract", "text": cps(t2)})
+        elif r[0] == "syntax":
+            if r[2]:
+                t2 = shrink(t, lambda x: (lambda q: q[0] == "syntax" and q[2] == r[2])(real_parse_contract(x)))
+                ctx.fail("render-raises:%s:parse:%s" % (r[2], "crlf" if "\r\n" in t2 else "cr" if "\r" in t2 else "lf"),
+                         "rendering the parser's syntax error raises (%s)" % r[2],
+                         {"part": PART, "kind": "parse_contract", "text": cps(t2)})
+            if not (0 <= r[1] <= len(t)) and not ESC_AT_EOF.search(t):
+                ctx.fail("position-out-of-range:parse:other", "parser syntax error position outside the text",
+                         {"part": PART, "kind": "parse_contract", "text": cps(t)})
 
 
 def oracle_number_lookahead(ctx, rng):
@@ -758,9 +939,13 @@ def real_loc(body, pos):
 
 
 def check_locations(ctx, rng):
-    bodies = ["", "a", "\n", "a\nb", "a\r\nb", "a\rb", "\r", "\r\n", "\n\n\n", "ab\ncd\ne", "a\u2028b\nc", "\r\r\n\n", "{\n  a\n}\n"]
+    bodies = ["", "a", "\n", "a\nb", "a\r\nb", "a\rb", "\r", "\r\n", "\n\n\n", "ab\ncd\ne", "a\u2028b\nc", "\r\r\n\n", "{\n  a\n}\n",
+              "a\r\nb\r\nc\r\nd", "a\r\n\r\nb\r\n", "\r\n\r\n\r\n", "a\rb\rc\r", "a\n\rb", "a\r\r\nb", "{\r\n  a\r\n  b\r\n}\r\n?"]
     for _ in range(ctx.n(150, 1500)):
         bodies.append("".join(rng.choice("ab \n\n\r{\u2028") for _ in range(rng.choice([1, 2, 3, 5, 9, 30]))))
+    for _ in range(ctx.n(60, 600)):
+        nl = rng.choice(["\r\n", "\r", "\n", "\r\n"])
+        bodies.append(nl.join("".join(rng.choice("ab {") for _ in range(rng.choice([0, 1, 3]))) for _ in range(rng.choice([2, 3, 5, 8]))))
     cases = [(b, p) for b in bodies for p in list(range(len(b) + 3))]
     ans = ctx.driver.ask([{"op": "index_to_loc", "body": cps(b), "pos": p} for b, p in cases]) if ctx.model_ok else [None] * len(cases)
     for (b, p), a in zip(cases, ans):
@@ -778,7 +963,7 @@ def check_locations(ctx, rng):
             continue
         m_ok = a["loc"] is not None
         if (loc[0] == "ok") != m_ok or (hl[0] == "ok") != bool(a["highlight_ok"]) or \
-                (m_ok and "\r" not in b and list(loc[1]) != a["loc"]):
+                (m_ok and list(loc[1]) != a["loc"]):
             ctx.fail("corr:index_to_loc:%s" % classes(b), "model indexToLoc/highlightLocation and the implementation differ",
                      {"part": PART, "kind": "loc", "text": cps(b), "pos": p, "impl": repr((loc, hl[0])), "model": a}, kind="correspondence")
 
@@ -826,6 +1011,14 @@ def replay(ctx, data):
     r = real_lex(text)
     if kind == "bytes":
         return real_lex(text) == real_lex(text.encode("utf8"))
+    if kind == "parse_contract":
+        q = real_parse_contract(text)
+        return q[0] == "ok" or (q[0] == "syntax" and not q[2])
+    if kind == "parse_text":
+        before = len(ctx.found)
+        ctx.model_ok = ctx.driver.available()
+        parse_text_cases(ctx, [(text, inp.get("entry", "document"), inp.get("flags") or FLAG0, None)], "replay")
+        return not [f for f in ctx.found[before:] if f["kind"] == "property"]
     if kind == "lookahead":
         return r[0] == "syntax"
     if kind == "loc":
